@@ -7,6 +7,21 @@ def G(module, cfg, **kw):
     return d
 
 CHECKS = {
+    "C02": {
+        "quick": {"gen": [G("MC_C02", "MC_C02_quick.cfg")]},
+        "thorough": {"gen": [G("MC_C02", "MC_C02_thorough.cfg")]},
+        "require_ops": ["strict.tensor", "lax.tensor", "law.tensor_assoc", "lax.tensor3"],
+    },
+    "C03": {
+        "quick": {"gen": [G("MC_C03", "MC_C03_quick.cfg")]},
+        "thorough": {"gen": [G("MC_C03", "MC_C03_thorough.cfg")]},
+        "require_ops": ["law.assoc", "law.unit", "law.interchange", "law.twist_natural", "law.twist_inverse", "law.hexagon"],
+    },
+    "C04": {
+        "quick": {"gen": [G("MC_C04", "MC_C04_quick.cfg")]},
+        "thorough": {"gen": [G("MC_C04", "MC_C04_thorough.cfg")]},
+        "require_ops": ["law.dagger_compose", "law.dagger_tensor", "law.spider_fusion", "strict.spider", "lax.spider", "strict.dagger", "lax.dagger"],
+    },
     "C01": {
         "quick": {"gen": [G("MC_C01", "MC_C01_quick.cfg")]},
         "thorough": {"gen": [G("MC_C01", "MC_C01_quick.cfg")]},
